@@ -18,6 +18,19 @@ EINTR_ADV = [0, 1, 1, 999, 1000, 1000, 1001, 1500, 2000, 999999, 1000000, 250000
 USECS = [0, 0, 1, 999, 1000, 1001, 1500, 2000, 999999, 1000000, 1000001, 2500000, 2147483000000, 2147483000001, 5000,
          2200000000 * 10**6, 4300000000 * 10**6]     # beyond 2^31 and 2^32 seconds: comparisons must not truncate
 
+# the saturation point of events_network_select's conversion to poll's int milliseconds (tv2ms): tv_sec >= INT_MAX / 1000 =
+# 2147483.  Finding F12 (notes/F12-fix.md): the code returned INT_MAX ms there, up to 647 ms more than the time to the deadline
+# (tv_sec == 2147483, tv_usec <= 646000; from 647001 us on INT_MAX ms is less than the exact value).  Profile "far": amounts of
+# time left 2147482..2147485 s + every microsecond boundary, reached directly, by clock advances, by resets, and after EINTR.
+FAR_SECS = [2147482, 2147483, 2147483, 2147483, 2147484, 2147485]
+FAR_USECS = [0, 0, 1, 999, 1000, 1001, 646000, 646001, 646999, 647000, 647001, 999000, 999001, 999999]
+FAR_ADV = [0, 1, 999, 1000, 1001, 353000, 353001, 500000, 647000, 999999, 1000000, 1000001, 2500000]
+BEYOND = [2147483648 * 10**6, 2200000000 * 10**6, 3000000000 * 10**6, 4300000000 * 10**6]
+
+
+def far_left(r):
+    return r.choice(FAR_SECS) * 10**6 + r.choice(FAR_USECS)
+
 
 class G:
     """One case.  The generator keeps a rough picture of what is registered (exactness is not
@@ -113,6 +126,8 @@ class G:
 
     def usec(self):
         r = self.r
+        if self.profile == "far" and r.chance(7, 8):
+            return far_left(r) if r.chance(5, 6) else r.choice(BEYOND)
         if r.chance(1, 3):
             return r.choice([0, 1000, 1000, 2000])            # ties
         return r.choice(USECS)
@@ -132,7 +147,7 @@ class G:
     def top_reg(self):
         r = self.r
         w = {"net": [("imm", 2), ("net", 10), ("tm", 2)], "imm": [("imm", 10), ("net", 2), ("tm", 2)],
-             "tm": [("imm", 2), ("net", 2), ("tm", 10)]}.get(self.profile, [("imm", 5), ("net", 6), ("tm", 4)])
+             "tm": [("imm", 2), ("net", 2), ("tm", 10)], "far": [("imm", 1), ("net", 3), ("tm", 10)]}.get(self.profile, [("imm", 5), ("net", 6), ("tm", 4)])
         k = r.weighted(w)
         i = self.fresh()
         self.make_script(i)
@@ -171,7 +186,7 @@ class G:
         elif k == "reset_tm":
             self.ops.append("reset_tm %d" % self.pick_id())
         elif k == "clock":
-            self.ops.append("clock %d" % r.choice([1, 500, 999, 1000, 1001, 1000000, 2500000]))
+            self.ops.append("clock %d" % r.choice(FAR_ADV if self.profile == "far" else [1, 500, 999, 1000, 1001, 1000000, 2500000]))
         elif k == "interrupt":
             self.ops.append("interrupt")
         elif k == "rereg" and self.nid:
@@ -185,12 +200,45 @@ class G:
             else:
                 self.ops.append("reg_tm %d %d" % (i, self.usec()))
 
+    def far_preamble(self):
+        """one timer (no script) whose time left at the first blocking poll -- or at the poll after an EINTR -- is `left`"""
+        r = self.r
+        left = far_left(r)
+        if r.chance(1, 2):
+            self.ops.append("clock %d" % r.choice([1, 999999, 1500000, 2147483647001]))     # microseconds of the clock != 0: carries
+        i = self.fresh()
+        self.live_tm.append(i)
+        self.tm_ids.append(i)
+        d1, d2 = r.choice(FAR_ADV), r.choice(FAR_ADV)
+        k = r.weighted([("direct", 25), ("clock", 15), ("reset", 10), ("eintr", 25), ("eintr2", 15), ("eintr-sat", 10)])
+        if not EINTR_TIME and k.startswith("eintr"):
+            k = "clock"
+        if k == "direct":
+            self.ops.append("reg_tm %d %d" % (i, left))
+        elif k == "clock":
+            self.ops += ["reg_tm %d %d" % (i, left + d1), "clock %d" % d1]
+        elif k == "reset":
+            self.ops += ["reg_tm %d %d" % (i, left), "clock %d" % d1, "reset_tm %d" % i]
+        elif k == "eintr":
+            # the first timeout is computed from left + d1, the one after the signal from left
+            self.ops += ["reg_tm %d %d" % (i, left + d1), "pollintr %d" % d1]
+        elif k == "eintr2":
+            self.ops += ["reg_tm %d %d" % (i, left + d1 + d2), "pollintr %d" % d1, "pollintr %d" % d2]
+        else:
+            # a wait that starts above the saturation point and is interrupted when `left` remains
+            far = r.choice([2147490 * 10**6, 2147483648 * 10**6, 3000000000 * 10**6])
+            self.ops += ["reg_tm %d %d" % (i, far), "pollintr %d" % (far - left - d1), "pollintr %d" % d1]
+        self.ops.append("run")
+        if r.chance(1, 2):
+            self.ops.append("pollintr %d" % r.choice(FAR_ADV))       # during the wait for what the first call left over
+        self.ops.append("run")
+
     def poll_answer(self):
         r = self.r
-        if r.chance(1, 16):
+        if r.chance(1, 4 if self.profile == "far" else 16):
             # one signal or several in a row (the wait is then cut down step by step)
             for _ in range(r.weighted([(1, 60), (2, 25), (4, 15)])):
-                self.ops.append("pollintr %d" % (r.choice(EINTR_ADV) if EINTR_TIME else 0))
+                self.ops.append("pollintr %d" % (r.choice(FAR_ADV if self.profile == "far" else EINTR_ADV) if EINTR_TIME else 0))
             return
         adv = r.choice([0, 0, 1, 999, 1000, 1001, 1500, 1000000, 3000000])
         k = r.weighted([(0, 10), (1, 25), (2, 20), (3, 15), (6, 10), (len(self.fdpool), 8)])
@@ -220,6 +268,9 @@ def gen_case(r, profile, tier):
     nreg = r.range(1, 6) if nfd <= 4 else r.range(nfd // 2, nfd + 10)
     if profile == "imm":
         nreg = r.range(4, 70)
+    if profile == "far":
+        g.far_preamble()
+        nreg = r.range(0, 4)
     for _ in range(nreg):
         g.top_reg()
     for _ in range(r.range(1, 5)):
@@ -238,7 +289,7 @@ def gen_case(r, profile, tier):
     return g.ops
 
 
-PROFILES = [("mixed", 30), ("net", 25), ("imm", 12), ("tm", 15), ("status", 18)]
+PROFILES = [("mixed", 30), ("net", 25), ("imm", 12), ("tm", 15), ("status", 18), ("far", 8)]
 
 
 def gen_events(rng, tier, mult):
@@ -271,6 +322,7 @@ def classify(case, out):
         polls = 0
         kinds = set()
         prev_eintr = None
+        prev_eintr_far = False
         for t in toks:
             f = t.split(":")
             if f[0] == "cb":
@@ -291,6 +343,14 @@ def classify(case, out):
                     if prev_eintr not in ("0", "-1"):
                         tags.append("poll:after-eintr:" + ("expired" if f[1] == "0" else "same" if f[1] == prev_eintr else "less"))
                 prev_eintr = f[1] if f[-1] == "eintr" else None
+                if f[1].isdigit() and int(f[1]) >= 2147482000:
+                    # at the saturation point of the ms conversion (INT_MAX / 1000 s): just below it / the saturated value /
+                    # INT_MAX (what the code asked for before the repair of F12) / anything else
+                    t = int(f[1])
+                    tags.append("poll:far:" + ("below" if t < 2147483000 else "=2147483000" if t == 2147483000 else
+                                               "=INT_MAX" if t == 2147483647 else "other")
+                                + ("+after-eintr" if prev_eintr_far else ""))
+                prev_eintr_far = f[-1] == "eintr"
                 if f[-1] != "ok":
                     tags.append("poll:" + f[-1])
                 else:
@@ -320,11 +380,13 @@ def component(monitor):
         "events", "h_events.c", EVENT_SRCS, ["events"], gen_events,
         nontrivial=nontrivial,
         rule="programs of 1..80 registrations (immediate with all 32 priorities / socket read+write on 1..40 descriptors / "
-             "timers with tied deadlines, 0, ms boundaries, INT_MAX/1000 s) whose callbacks run scripts (register, cancel incl. the "
+             "timers with tied deadlines, 0, ms boundaries, INT_MAX/1000 s; profile far: 2147482..2147485 s + 0/1/999/1000/1001/646000/646001/"
+             "646999/647000/647001/999000/999001/999999 us left at the first poll, after clock advances, resets and EINTRs, and deadlines "
+             "beyond INT_MAX ms) whose callbacks run scripts (register, cancel incl. the "
              "descriptor being scanned and the last pollfd entries, re-arm themselves, reset, interrupt, clock, non-zero status), "
              "interleaved with scripted poll answers (ready sets with ERR/HUP, EINTR -- also several in a row, with 0 / <1 ms / "
              "exactly 1 ms / whole timer periods passing before the signal --, clock advance, level-triggered repeats) and "
-             "events_run calls; profiles mixed/net/imm/tm/status; non-trivial = >= 2 runs and >= 2 register/cancel/reset calls; "
+             "events_run calls; profiles mixed/net/imm/tm/status/far; non-trivial = >= 2 runs and >= 2 register/cancel/reset calls; "
              "L1 = the %s monitor over the implementation's trace, L2 = equality with the model's trace and white-box state" % monitor.upper(),
         classify=classify, monitor_args=["eventsmon", monitor], ldflags=["-Wl,--wrap=poll"])
 
